@@ -104,7 +104,7 @@ def cost_case(draw, classes=("E", "E", "F"), shapes=("tiny", "tiny", "tiny", "sm
             else:
                 beta_v = float(bscale * rng.uniform(0, 1))
         cost = np.ascontiguousarray(cost, dtype=np.float64)
-    case = {"cls": cls, "shape": shape, "cost": cost, "beta": beta_v}
+    case = {"cls": cls, "shape": shape, "cost": cost, "beta": beta_v, "reuse_buffers": draw(st.booleans())}
     if cls == "E" and dtypes and draw(st.integers(0, 7)) == 0:
         # the same exact-arithmetic table handed over in another real dtype (values exactly representable there)
         dt = draw(st.sampled_from(list(dtypes)))
@@ -158,6 +158,8 @@ def e2e_config(draw, front=("single", "single", "joint"), max_N=3, max_W=4, max_
         "num_processors": draw(st.sampled_from(list(procs))),
         "boundary_regime_flip": draw(st.booleans()),
         "outliers": draw(st.sampled_from([0, 0, 0, 1, 1, 2, 3])),
+        "reuse_buffers": draw(st.booleans()),
+        "prior_calls_on_same_arrays": draw(st.booleans()),
     }
     if cfg["beta_form"] == "vector" and draw(st.booleans()):
         cfg["beta_vector_seed"] = draw(st.integers(0, 2 ** 16))
@@ -174,3 +176,37 @@ def e2e_config(draw, front=("single", "single", "joint"), max_N=3, max_W=4, max_
         if draw(st.integers(0, 3)) == 0:
             cfg["duplicate_rows"] = True
     return cfg
+
+
+@st.composite
+def e2e_long_config(draw, front=("single",)):
+    """Runs with more than 4096 stacked rows (block sizes such as 4096 are a classic place for chunking mistakes) and
+    frequent label changes, so that a change lands on any given boundary with high probability."""
+    N = draw(st.integers(1, 2))
+    W = draw(st.integers(1, 2))
+    K = draw(st.integers(2, 3))
+    T = draw(st.sampled_from([4097, 4200, 5000, 8193, 8300, 9000])) + W - 1 + draw(st.integers(0, 3))
+    return {
+        "front": "single", "N": N, "W": W, "K": K, "lengths": [T], "regimes": K,
+        "mean_spread": draw(st.sampled_from([1.0, 4.0, 4.0])), "data_seed": draw(st.integers(0, 2 ** 31 - 1)),
+        "np_seed": draw(st.integers(0, 2 ** 31 - 1)), "py_seed": draw(st.integers(0, 2 ** 31 - 1)),
+        "beta": draw(st.sampled_from([0.25, 1.0, 3.0])), "beta_form": draw(st.sampled_from(["scalar", "scalar", "vector"])),
+        "lam": 0.11, "lam_form": "scalar", "limit": draw(st.sampled_from([2, 1, 3])), "m": draw(st.integers(2, 6)),
+        "biased": draw(st.booleans()), "eps": 0, "num_processors": 1, "boundary_regime_flip": False, "outliers": 0,
+        "short_segments": True, "reuse_buffers": False,
+    }
+
+
+@st.composite
+def e2e_oscillating_config(draw):
+    """Tiny runs in which repopulation tends to be undone by the next relabelling (period-2 behaviour of the main loop)."""
+    K = draw(st.integers(2, 3))
+    return {
+        "front": "single", "N": 1, "W": 1, "K": K, "lengths": [draw(st.integers(24, 48))], "regimes": draw(st.integers(1, 2)),
+        "mean_spread": draw(st.sampled_from([0.0, 0.5, 2.0])), "data_seed": draw(st.integers(0, 2 ** 31 - 1)),
+        "np_seed": draw(st.integers(0, 2 ** 31 - 1)), "py_seed": draw(st.integers(0, 2 ** 31 - 1)),
+        "beta": draw(st.sampled_from([2.0, 5.0, 10.0, 20.0])), "beta_form": "scalar",
+        "lam": draw(st.sampled_from([0.11, 0.5])), "lam_form": "scalar", "limit": draw(st.sampled_from([8, 12, 30])),
+        "m": draw(st.integers(3, 6)), "biased": draw(st.booleans()), "eps": 0, "num_processors": 1,
+        "boundary_regime_flip": False, "outliers": draw(st.sampled_from([0, 1, 2])), "reuse_buffers": False,
+    }
